@@ -216,6 +216,103 @@ def l8(led, rid, ctx):
     led.floor(rid, "direct bound facts in propagators", n, 40)
 
 
+def _lin(e):
+    from ..flow import show
+    e = peel(e, calls=None, casts=False)
+    if e.k == "binop" and e.a in ("Add", "Sub") and peel(e.c, calls=None).k == "const" and \
+            peel(e.c, calls=None).a is not None:
+        b, o = _lin(e.b)
+        k = peel(e.c, calls=None).a
+        return b, o + (k if e.a == "Add" else -k)
+    if e.k == "const" and e.a is not None:
+        return "", e.a
+    return show(e), 0
+
+
+# bound facts that are true for a reason other than a comparison on the path
+L10_TABLE = {
+    ("division", "lower_bound_predicate", "1"):
+        "[denominator ≥ 1]: the division propagator requires 0 ∉ denominator and normalises its sign "
+        "before these helpers run",
+    ("division", "lower_bound_predicate", "0"):
+        "[numerator/rhs ≥ 0]: these helpers are only called for the non-negative case (guards in "
+        "perform_propagation)",
+    ("debug_propagate_from_scratch", "lower_bound_predicate", "phi"):
+        "maximum: the value is the running maximum of the lower bounds read in the loop",
+    ("debug_propagate_from_scratch", "upper_bound_predicate", "captured"):
+        "maximum: [a_i ≤ ub(rhs)] for every element, ub(rhs) read before the closure",
+    ("lazy_explanation", "*", "payload"):
+        "element: the bound stored in the lazy reason's payload at propagation time",
+}
+
+
+def l10(led, rid, ctx):
+    """truth of stated facts: a bound fact in a reason that is not a direct bound read is established
+    on the path by a comparison of a bound read of the same variable"""
+    from ..flow import show, guards_of, rel_fact
+    lib = ctx.lib
+    n = 0
+    flip = {"Lt": "Gt", "Gt": "Lt", "Le": "Ge", "Ge": "Le", "Eq": "Eq", "Ne": "Ne"}
+    for f in lib.fns.values():
+        if "/src/propagators/arithmetic" not in f.file and "/propagators/element" not in f.file:
+            continue
+        if "/tests" in f.file:
+            continue
+        R = resolver(f)
+        for c in f.calls:
+            if c.name not in ("lower_bound_predicate", "upper_bound_predicate") or len(c.args) != 2:
+                continue
+            v = peel(R.operand(c.args[1]), calls=None, casts=False)
+            if v.k == "call" and v.a.name in ("lower_bound", "upper_bound"):
+                continue
+            x = show(peel(R.operand(c.args[0]), calls=None))
+            vb, vo = _lin(v)
+            n += 1
+            est = False
+            for g in guards_of(f, c.bb):
+                rf = rel_fact(g)
+                if not rf:
+                    continue
+                op, l, r = rf
+                for a, b, o in ((l, r, op), (r, l, flip[op])):
+                    a_ = peel(a, calls=None, casts=False)
+                    if a_.k == "call" and a_.a.name in ("lower_bound", "upper_bound") and len(a_.a.args) >= 2 \
+                            and show(peel(R.operand(a_.a.args[-1]), calls=None)) == x:
+                        bb_, bo = _lin(b)
+                        if bb_ != vb:
+                            continue
+                        if c.name == "upper_bound_predicate" and a_.a.name == "upper_bound":
+                            if (o == "Le" and bo <= vo) or (o == "Lt" and bo - 1 <= vo) or (o == "Eq" and bo <= vo):
+                                est = True
+                        if c.name == "lower_bound_predicate" and a_.a.name == "lower_bound":
+                            if (o == "Ge" and bo >= vo) or (o == "Gt" and bo + 1 >= vo) or (o == "Eq" and bo >= vo):
+                                est = True
+            root = (f.parent or f.defn)
+            rshort = root.rsplit("::", 1)[-1]
+            key = "%s:[%s %s %s]" % (rshort, x[-25:], ">=" if c.name[0] == "l" else "<=", show(v)[:40])
+            if est:
+                led.ok(rid, key, c.span, "established by a dominating comparison")
+                continue
+            why = None
+            for (fn_s, kind, mark), reason in L10_TABLE.items():
+                if kind not in ("*", c.name):
+                    continue
+                if fn_s == "division" and "/division.rs" in f.file and vb == "" and str(vo) == mark:
+                    why = reason
+                if fn_s == "debug_propagate_from_scratch" and rshort == fn_s and "/maximum.rs" in f.file:
+                    if mark == "phi" and v.k == "phi":
+                        why = reason
+                    if mark == "captured" and f.kind == "Closure":
+                        why = reason
+                if fn_s == "lazy_explanation" and rshort == fn_s and any(cc.name == "value" for cc in v.calls()):
+                    why = reason
+            led.check(why is not None, rid, key, c.span, "table: %s" % why,
+                      "%s states [%s %s %s] in a reason, but no comparison on the path establishes it and "
+                      "it has no table entry: a fact that need not hold when the reason is given makes "
+                      "learned nogoods unsound" % (rshort, x, ">=" if c.name[0] == "l" else "<=", show(v)))
+    led.floor(rid, "computed bound facts in reasons", n, 45)
+
+
 def reason_preds(f, c):
     cfg = f.cfg
     back = backward(f, operand_locals(c.args[-1]), effects=True)
@@ -286,5 +383,7 @@ def run(ctx, led):
              "direction it was read with (sibling discipline of all 48 sites)", l8, ctx)
     run_rule(led, "L9", "the reason of a propagated bound states every bound the propagated value was "
              "computed from (44 sites)", l9, ctx)
+    run_rule(led, "L10", "a computed bound fact in a reason is established by a dominating comparison "
+             "of a bound read of the same variable (or has a table entry)", l10, ctx)
     run_rule(led, "L6", "a reason assembled from input data outside propagate is filtered to "
              "predicates that hold (instance-specific regression guard)", l6, ctx)
